@@ -469,6 +469,161 @@ class SimGate(object):
         return "<SimGate open=%s>" % self.is_open
 
 
+class SimEvent(object):
+    """threading.Event stand-in: wait() blocks logically; a timed wait may expire by scheduler decision."""
+
+    def __init__(self):
+        self._flag = False
+
+    def is_set(self):
+        return self._flag
+
+    isSet = is_set
+
+    def set(self):
+        self._flag = True
+        s = _CURRENT
+        if s is not None and s.by_ident.get(get_ident()) is not None:
+            s.wake(self)
+            s.yield_point("event.set")
+
+    def clear(self):
+        self._flag = False
+
+    def wait(self, timeout=None):
+        s = _CURRENT
+        a = s.by_ident.get(get_ident()) if s is not None else None
+        if a is None:
+            if not self._flag:
+                raise HarnessError("SimEvent.wait would block outside a run")
+            return True
+        s.yield_point("event.wait")
+        while not self._flag:
+            if timeout is not None:
+                if not s._runnable(exclude=a) or s.stream.chance(0.3, "wait-timeout-expires"):
+                    s.probe("timed_wait_expired")
+                    return False
+                s.force_yield("event.wait.timed")
+                continue
+            s.block_on(self)
+        return True
+
+    def __repr__(self):
+        return "<SimEvent set=%s>" % self._flag
+
+
+class SimSemaphore(object):
+    """threading.Semaphore / BoundedSemaphore stand-in."""
+
+    def __init__(self, value=1):
+        self._value = value
+
+    def acquire(self, blocking=True, timeout=None):
+        s = _CURRENT
+        a = s.by_ident.get(get_ident()) if s is not None else None
+        if a is None:
+            if self._value <= 0:
+                if not blocking:
+                    return False
+                raise HarnessError("SimSemaphore would block outside a run")
+            self._value -= 1
+            return True
+        s.yield_point("sem.acquire")
+        while self._value <= 0:
+            if not blocking:
+                return False
+            if timeout is not None:
+                if not s._runnable(exclude=a) or s.stream.chance(0.3, "sem-timeout-expires"):
+                    return False
+                s.force_yield("sem.wait.timed")
+                continue
+            s.block_on(self)
+        self._value -= 1
+        return True
+
+    def release(self, n=1):
+        self._value += n
+        s = _CURRENT
+        if s is not None and s.by_ident.get(get_ident()) is not None:
+            s.wake(self)
+            s.yield_point("sem.release")
+
+    def __enter__(self):
+        self.acquire()
+        return True
+
+    def __exit__(self, *a):
+        self.release()
+
+
+class SimCondition(object):
+    """threading.Condition stand-in over a SimRLock (or the lock given)."""
+
+    def __init__(self, lock=None):
+        self._lock = lock if lock is not None else SimRLock()
+        self.acquire = self._lock.acquire
+        self.release = self._lock.release
+        self._waiters = []
+
+    def __enter__(self):
+        return self._lock.__enter__()
+
+    def __exit__(self, *a):
+        return self._lock.__exit__(*a)
+
+    def _release_all(self):
+        n = 0
+        if isinstance(self._lock, SimRLock):
+            while getattr(self._lock, "_count", 0) > 0:
+                self._lock.release()
+                n += 1
+        else:
+            self._lock.release()
+            n = 1
+        return n
+
+    def wait(self, timeout=None):
+        s = _CURRENT
+        a = s.by_ident.get(get_ident()) if s is not None else None
+        if a is None:
+            raise HarnessError("SimCondition.wait outside a run")
+        token = object()
+        self._waiters.append(token)
+        n = self._release_all()
+        got = True
+        while token in self._waiters:
+            if timeout is not None:
+                if not s._runnable(exclude=a) or s.stream.chance(0.3, "cond-timeout-expires"):
+                    self._waiters.remove(token)
+                    got = False
+                    break
+                s.force_yield("cond.wait.timed")
+                continue
+            s.block_on(self)
+        for _ in range(n):
+            self._lock.acquire()
+        return got
+
+    def wait_for(self, predicate, timeout=None):
+        r = predicate()
+        while not r:
+            if not self.wait(timeout) and timeout is not None:
+                return predicate()
+            r = predicate()
+        return r
+
+    def notify(self, n=1):
+        del self._waiters[:n]
+        s = _CURRENT
+        if s is not None:
+            s.wake(self)
+
+    def notify_all(self):
+        self.notify(len(self._waiters))
+
+    notifyAll = notify_all
+
+
 class SimQueue(object):
     """queue.SimpleQueue / queue.Queue stand-in (unbounded FIFO)."""
 
